@@ -10,7 +10,8 @@ Dev(e) == IF Dev_SetTypeLeavesItemsBehind(e) THEN "Dev_SetTypeLeavesItemsBehind"
 \* A pre-state in which a stored resource is already off the collection's type
 \* (the residue of an earlier rejected step of the same history) is not judged
 \* again: the step that broke it was.
-PreOK(e) == /\ ItemsTyped(e.pre)
+PreOK(e) == /\ \A f \in DOMAIN e.pre.ctype.fields : e.pre.ctype.fields[f].kind \in {"attr", "rel"}   \* not both (out-of-domain history)
+            /\ ItemsTyped(e.pre)
             /\ \A i \in 1..Len(e.obs.preitemdefs) : e.obs.preitemdefs[i] = e.pre.ctype.fields
 
 Judge(e) ==
